@@ -32,4 +32,10 @@ impl History {
             false
         }
     }
+
+    pub(crate) fn forget_zero_length_match(&mut self, repeat: *const Repeat, position: usize) {
+        if let Some(positions) = self.zero_length_matches.get_mut(&repeat) {
+            positions.remove(&position);
+        }
+    }
 }
